@@ -170,7 +170,7 @@ def single_bindings(fi: FuncInfo) -> Dict[str, ast.expr]:
         if isinstance(n, ast.Assign):
             for t in n.targets:
                 for nm in ast.walk(t):
-                    if isinstance(nm, ast.Name):
+                    if isinstance(nm, ast.Name) and isinstance(nm.ctx, ast.Store):
                         count[nm.id] = count.get(nm.id, 0) + 1
                         if isinstance(t, ast.Name):
                             val[nm.id] = n.value
